@@ -222,7 +222,14 @@ def dispatch(drv, prop, tier, args):
             if os.path.exists(os.path.join(tdir, f)):
                 os.remove(os.path.join(tdir, f))
         t0 = time.time()
-        p = subprocess.run(["tlc", "-workers", "4", "-dump", "dot,actionlabels", "graph.dot", "-config", "Session.cfg", "Session.tla"], cwd=tdir, capture_output=True, text=True)
+        jtmp = os.path.join(tdir, "jtmp")
+        shutil.rmtree(jtmp, ignore_errors=True)
+        shutil.rmtree(os.path.join(tdir, "states"), ignore_errors=True)
+        os.makedirs(jtmp)
+        env = dict(os.environ, JAVA_TOOL_OPTIONS=(os.environ.get("JAVA_TOOL_OPTIONS", "") + f" -Djava.io.tmpdir={jtmp}").strip())
+        p = subprocess.run(["tlc", "-workers", "4", "-dump", "dot,actionlabels", "graph.dot", "-config", "Session.cfg", "Session.tla"], cwd=tdir, capture_output=True, text=True, env=env)
+        shutil.rmtree(jtmp, ignore_errors=True)
+        shutil.rmtree(os.path.join(tdir, "states"), ignore_errors=True)
         out = p.stdout + p.stderr
         if "Model checking completed. No error has been found." not in out:
             sys.stderr.write(out[-4000:])
